@@ -451,6 +451,11 @@ func runC10Case(c *fw.Ctx, id string, v refmatch.Variant, w window, pairs bool) 
 	}
 	classes := []class{
 		{"fatal", simnet.Fault{Err: fmt.Errorf("socket layer: %w", errInjected)}},
+		// what the real sockets return: an errno behind os.SyscallError (a netfilter rule refusing the send gives EPERM, a
+		// broadcast target EACCES, a full table ENOBUFS). Whatever the errno, errors.Is must still find it.
+		{"errno-EPERM", simnet.Fault{Err: os.NewSyscallError("sendto", syscall.EPERM)}},
+		{"errno-EACCES", simnet.Fault{Err: os.NewSyscallError("sendto", syscall.EACCES)}},
+		{"errno-ENOBUFS", simnet.Fault{Err: os.NewSyscallError("recvfrom", syscall.ENOBUFS)}},
 		{"deadline", simnet.Fault{Err: os.ErrDeadlineExceeded}},
 		// the failing read blocks for 120 ms (longer than a poll interval) before it reports the error: near the end of
 		// the listening window the error surfaces after the run's deadline has passed - it is still a failed read
@@ -472,6 +477,9 @@ func runC10Case(c *fw.Ctx, id string, v refmatch.Variant, w window, pairs bool) 
 			for _, cl := range classes {
 				if (cl.f.ZeroLen || cl.name == "fatal-late") && op != "read" {
 					continue
+				}
+				if strings.HasPrefix(cl.name, "errno-") && (k > 3 || op == "close_source" || op == "close_sink" || op == "deadline") {
+					continue // the errno classes at the first three calls of each failing operation
 				}
 				h := 0
 				if op == "factory" {
@@ -502,6 +510,14 @@ func runC10Case(c *fw.Ctx, id string, v refmatch.Variant, w window, pairs bool) 
 			// a failing Close must not change the outcome
 			if !sameAsClean {
 				c.Violate("C10", "close-error-changed-result/"+sigBase, tag+": outcome differs from the fault-free run", detail)
+			}
+		case strings.HasPrefix(in.cl.name, "errno-"):
+			var want syscall.Errno
+			errors.As(in.cl.f.Err, &want)
+			if !failed {
+				c.Violate("C10", "fault-swallowed/"+sigBase, fmt.Sprintf("%s: the operation failed but the run returned a result (partial path as success)", tag), detail)
+			} else if !errors.Is(r.res.Err, want) {
+				c.Violate("C10", "cause-lost/"+sigBase, fmt.Sprintf("%s: returned error does not wrap the underlying errno (%v): %v", tag, want, r.res.Err), detail)
 			}
 		case in.cl.name == "fatal" || in.cl.name == "fatal-late" || (in.cl.name == "deadline" && in.key.Op != "read"):
 			if !failed {
